@@ -259,6 +259,14 @@ func buildDeactivated(t *rapid.T, pool string) (*chain, []*hist.Anchored) {
 	if rapid.IntRange(0, 2).Draw(t, "windowedDeactivate") == 0 {
 		ch.windowed()
 	}
+	if len(ch.recKeys) >= 2 && rapid.IntRange(0, 2).Draw(t, "skippedCompetitor") == 0 {
+		// a validly signed recover that reveals the key D reveals, anchored in front of D, but hands a recovery
+		// commitment on that the chain has already consumed: the state machine skips it (C12) and applies D - the
+		// first valid operation for the commitment, not the first one
+		old := ch.recKeys[rapid.IntRange(0, len(ch.recKeys)-2).Draw(t, "consumedRecoveryKey")]
+		ch.ops = append(ch.ops, hist.NewSigned(hist.SignedSpec{Name: "Rskipped", Type: "recover", Suffix: ch.suffix, Code: ch.code, Reveal: ch.curR, NextUpd: ch.key(t),
+			Markers: map[string]interface{}{"skipped": "v"}, Opt: hist.Opt{NextRecovery: asm.Commit(old, ch.code)}}))
+	}
 	ch.deactivate("D")
 	numberHighs = nil
 	if rapid.IntRange(0, 3).Draw(t, "hugePrefixNumbers") == 0 {
@@ -273,7 +281,7 @@ func buildDeactivated(t *rapid.T, pool string) (*chain, []*hist.Anchored) {
 }
 
 func TestDeactivateTerminal(t *testing.T) {
-	ev.Rule(chkDeact, "rapid: prefix = create + 0-5 valid updates/recovers + valid deactivate D (one in three with a signed anchoring window that is open when D is anchored; all key types, both hash algorithms), resolved one time in three on a node whose server-clock validator considers every signed window expired; extension = 1-12 operations anchored strictly after D at drawn coordinates, the last 0-2 of them pending (unpublished) with a wall-clock stamp after or before the ledger times: valid updates/recovers/deactivates signed with every key that was ever revealed or committed in the prefix, duplicate creates (same/other delta), forgeries; one case in two additionally asks for the state as of a drawn time at or after D's, and in one case in four D itself is pending (unpublished, stamped with its acceptance time) while the whole extension is anchored later and the state as of that stamp is asked for; oracle: Resolve = deactivated, empty document, no commitments; non-trivial = the extension holds >= 1 validly signed non-create operation")
+	ev.Rule(chkDeact, "rapid: prefix = create + 0-5 valid updates/recovers (+ one time in three, once the DID has been recovered, a validly signed recover revealing D's key that re-commits to a consumed recovery commitment and is therefore skipped) + valid deactivate D (one in three with a signed anchoring window that is open when D is anchored; all key types, both hash algorithms), resolved one time in three on a node whose server-clock validator considers every signed window expired; extension = 1-12 operations anchored strictly after D at drawn coordinates, the last 0-2 of them pending (unpublished) with a wall-clock stamp after or before the ledger times: valid updates/recovers/deactivates signed with every key that was ever revealed or committed in the prefix, duplicate creates (same/other delta), forgeries; one case in two additionally asks for the state as of a drawn time at or after D's, and in one case in four D itself is pending (unpublished, stamped with its acceptance time) while the whole extension is anchored later and the state as of that stamp is asked for; oracle: Resolve = deactivated, empty document, no commitments; non-trivial = the extension holds >= 1 validly signed non-create operation")
 	ev.Rapid(t, chkDeact, 400, 4000, func(t *rapid.T) {
 		ch, prefix := buildDeactivated(t, "c04d")
 		ext := ch.extension(t)
